@@ -129,7 +129,7 @@ class ElectionProfile:
             equal_rank = False
             for rank in ranking:
                 for cid in set(rank):
-                    if cid in profile.withdrawn:
+                    while cid in profile.withdrawn and cid in rank:
                         rank.remove(cid)
                 if len(rank) > 1:
                     equal_rank = True
